@@ -122,7 +122,9 @@ inductive Prim
   | needMsg | setNext (s : St) | setName (s : St) | setStopThreads | setActive | clearMsg | getMessage
   | makeAnswer                       -- `x = self.processor.create_answer(msg=self.msg)`
   | sendAnswer                       -- `self.send_message(msg=x)` with that local
-  | sendBase (o : Out) | sendFlush | notifyApp | trackingEvents | setNotRunning | assocClose
+  | sendBase (o : Out)
+  | sendStale (t : String)           -- an answer TEMPLATE sent as it stands (identifiers of whatever request it answered last): outside the model
+  | sendFlush | notifyApp | trackingEvents | setNotRunning | assocClose
   | returnState (s : St) | returnNext | raiseErr
 deriving Repr, DecidableEq, Inhabited
 
@@ -147,7 +149,8 @@ def Prim.exec : Prim → PS → PS
   | .getMessage, ps => _root_.BV.PsmT.getMessage ps
   | .makeAnswer, ps => { ps with ans := _root_.BV.PsmT.createAnswer ps }
   | .sendAnswer, ps => _root_.BV.PsmT.sendMsg ps.ans ps
-  | .sendBase o, ps => _root_.BV.PsmT.sendMsg (some o) ps | .sendFlush, ps => _root_.BV.PsmT.sendFlush ps | .notifyApp, ps => _root_.BV.PsmT.notifyApp ps
+  | .sendBase o, ps => _root_.BV.PsmT.sendMsg (some o) ps
+  | .sendStale _, ps => _root_.BV.PsmT.raiseErr ps | .sendFlush, ps => _root_.BV.PsmT.sendFlush ps | .notifyApp, ps => _root_.BV.PsmT.notifyApp ps
   | .trackingEvents, ps => _root_.BV.PsmT.trackingEvents ps | .setNotRunning, ps => _root_.BV.PsmT.setNotRunning ps | .assocClose, ps => _root_.BV.PsmT.assocClose ps
   | .returnState s, ps => _root_.BV.PsmT.returnState s ps | .returnNext, ps => _root_.BV.PsmT.returnState ps.next ps | .raiseErr, ps => _root_.BV.PsmT.raiseErr ps
 
